@@ -445,6 +445,7 @@ class _S(Contract):
 
 class WorldRun(_S):
     target = "mosaik.scenario.World.run"
+    property_ids = ["C14", "C09", "C13"]     # (the SimulationError of the loop guard / of reply validation must reach the caller)
 
     def make_args(self, mk):
         M = mk.s.shut
@@ -552,6 +553,7 @@ class WorldRun(_S):
 
 class WorldShutdown(_S):
     target = "mosaik.scenario.World.shutdown"
+    property_ids = ["C14", "C09", "C13"]
 
     def make_args(self, mk):
         return {"self": mk.s.shut.world}
@@ -647,7 +649,7 @@ class WorldShutdown(_S):
         try:
             w.shutdown()
             err = None
-        except Exception as e:  # noqa: BLE001
+        except BaseException as e:  # noqa: BLE001  (a CancelledError escaping shutdown is a BaseException)
             err = e
         closed = w.loop.is_closed()
         if not closed:
